@@ -24,6 +24,8 @@ def main : IO UInt32 := do
   match fields (first.dropEndWhile (· == '\n')).toString with
   | ["model", "typename"] => loopPure stdin stdout TypeName.driverStep
   | ["model", "codec"] => loopState stdin stdout Codec.driverStep {}
+  | ["model", "cfg"] => loopState stdin stdout Cfg.driverStep {}
+  | ["model", "interval"] => loopState stdin stdout Interval.driverStep ⟨0, []⟩
   | _ => IO.eprintln s!"unknown model line: {first}"; return 2
   stdout.flush
   return 0
